@@ -2,14 +2,165 @@ package main
 
 import (
 	"fmt"
-
-	"golang.org/x/tools/go/packages"
-	"golang.org/x/tools/go/ssa"
-	"golang.org/x/tools/go/ssa/ssautil"
+	"os"
+	"sort"
+	"strconv"
+	"strings"
+	"time"
 )
 
-var _ = packages.Load
-var _ ssa.BuilderMode
-var _ = ssautil.AllPackages
+func usage() {
+	fmt.Fprintln(os.Stderr, "usage: symgo check <PROP> [quick|thorough] [-v] [-only <harness substring>] [-j N]\n       symgo replay <file>")
+	os.Exit(2)
+}
 
-func main() { fmt.Println("ok") }
+func main() {
+	if len(os.Args) < 2 {
+		usage()
+	}
+	switch os.Args[1] {
+	case "check":
+		os.Exit(cmdCheck(os.Args[2:]))
+	case "replay":
+		os.Exit(cmdReplay(os.Args[2:]))
+	default:
+		usage()
+	}
+}
+
+func cmdCheck(args []string) int {
+	if len(args) < 1 {
+		usage()
+	}
+	e := newEngine()
+	prop := args[0]
+	only := ""
+	for i := 1; i < len(args); i++ {
+		switch args[i] {
+		case "quick", "thorough":
+			e.tier = args[i]
+		case "-v":
+			e.verbose = true
+		case "-only":
+			i++
+			only = args[i]
+		case "-j":
+			i++
+			e.workers, _ = strconv.Atoi(args[i])
+		case "-noaccel":
+			e.noAccel = true
+		}
+	}
+	if t := os.Getenv("VERIF_TIER"); t == "quick" || t == "thorough" {
+		if len(args) < 2 || (args[1] != "quick" && args[1] != "thorough") {
+			e.tier = t
+		}
+	}
+	if s := os.Getenv("VERIF_SEED"); s != "" {
+		e.seed, _ = strconv.ParseInt(s, 10, 64)
+	}
+	if e.tier == "thorough" {
+		e.crossCheck = os.Getenv("VERIF_NOCROSS") == ""
+	}
+	t0 := time.Now()
+	if err := e.load(); err != nil {
+		fmt.Fprintln(os.Stderr, "load failed:", err)
+		return 3
+	}
+	loadT := time.Since(t0)
+	if os.Getenv("VERIF_DEBUG") != "" {
+		e.debugDump()
+	}
+	hs := e.harnessFuncs(prop)
+	if only != "" {
+		var f = hs[:0]
+		for _, h := range hs {
+			if strings.Contains(h.Name(), only) {
+				f = append(f, h)
+			}
+		}
+		hs = f
+	}
+	if len(hs) == 0 {
+		fmt.Fprintln(os.Stderr, "no harness functions Verif"+prop+"_* found")
+		return 3
+	}
+	fmt.Printf("symgo: property %s tier %s: %d harnesses, load+ssa %.1fs, %d workers\n", prop, e.tier, len(hs), loadT.Seconds(), e.workers)
+	e.runHarnesses(hs)
+
+	// vacuity: every statically visible Assert/Reachable label and each harness end must be reached
+	var vacuous []string
+	for _, h := range hs {
+		if !e.reached["end:"+h.Name()] {
+			vacuous = append(vacuous, h.Name()+": no path reaches the end of the harness")
+		}
+		for l := range e.staticLabels(h) {
+			if !e.reached[h.Name()+"|"+l] {
+				vacuous = append(vacuous, h.Name()+": never reached "+l)
+			}
+		}
+	}
+	sort.Strings(vacuous)
+
+	known := e.loadKnown()
+	rc := 0
+	nviol := 0
+	var sigs []string
+	for s := range e.violations {
+		sigs = append(sigs, s)
+	}
+	sort.Strings(sigs)
+	var knownHit []string
+	for _, s := range sigs {
+		v := e.violations[s]
+		matched := false
+		for _, k := range known {
+			if k.Status == "open" && k.Property == prop && k.Signature == s {
+				fmt.Printf("KNOWN-FINDING: property=%s %s [%s]\n", prop, k.What, s)
+				knownHit = append(knownHit, s)
+				matched = true
+			}
+		}
+		if matched {
+			continue
+		}
+		nviol++
+		path, confirmed := e.writeReplay(prop, v)
+		if confirmed {
+			fmt.Printf("VIOLATION property=%s replay=%s\n", prop, path)
+			fmt.Printf("  harness=%s kind=%s at=%s %s\n", v.Harness, v.Kind, v.Label, v.Detail)
+			rc = 1
+		} else {
+			fmt.Printf("INCONCLUSIVE: counterexample for %s did not reproduce natively (replay file %s)\n", s, path)
+			e.inconcl["counterexample not reproduced natively: "+s]++
+		}
+	}
+	extra := map[string]interface{}{"vacuity_failures": vacuous, "known_findings_hit": knownHit, "load_ssa_s": loadT.Seconds()}
+	if err := e.writeEvidence(prop, hs, time.Since(t0), nviol, extra); err != nil {
+		fmt.Fprintln(os.Stderr, "evidence:", err)
+		return 3
+	}
+	st := e.stats
+	fmt.Printf("symgo: %s %s: paths done=%d cut=%d, decisions=%d, obligations sites=%d, queries feas=%d assert=%d (sat %d unsat %d unknown %d, cache %d), solver %.1fs, wall %.1fs\n",
+		prop, e.tier, e.pathsDone, e.pathsEnded, e.decisions, len(e.obligations), st.Feas, st.Assertion, st.SatN, st.UnsatN, st.UnknownN, st.CacheHits,
+		st.SolverTime.Seconds(), time.Since(t0).Seconds())
+	if rc == 1 {
+		return 1
+	}
+	if len(e.inconcl) > 0 || len(vacuous) > 0 {
+		var ks []string
+		for k, n := range e.inconcl {
+			ks = append(ks, fmt.Sprintf("%s (x%d)", k, n))
+		}
+		sort.Strings(ks)
+		for _, k := range ks {
+			fmt.Println("INCONCLUSIVE:", k)
+		}
+		for _, v := range vacuous {
+			fmt.Println("VACUOUS:", v)
+		}
+		return 3
+	}
+	fmt.Printf("symgo: property %s held on everything explored\n", prop)
+	return 0
+}
